@@ -14,8 +14,9 @@ def sh(cmd, cwd, timeout=1800):
 
 def main():
     prop, ab = sys.argv[1], sys.argv[2]
-    src = "/tmp/wt-%s/seeded/%s" % (prop, ab)
-    sid = "%s%s" % (prop, ab)
+    wave = sys.argv[3] if len(sys.argv) > 3 else "1"
+    src = ("/tmp/wt-%s/seeded/%s" if wave == "1" else "/tmp/wt" + wave + "-%s/seeded/%s") % (prop, ab)
+    sid = "%s%s" % (prop, ab) + ("" if wave == "1" else "-w" + wave)
     wt = "/tmp/vs-%s" % sid
     out = {"id": sid, "property": prop, "source": "sub-agent (given only the property text and a scratch worktree)"}
     if not os.path.exists(os.path.join(src, "patch.diff")):
